@@ -1,8 +1,142 @@
-/- line-protocol engine `ty` (stub: answers bad-op until the engine is built) -/
+/- line-protocol engine `ty`: types, bindings, assignability (C04).
+Types travel in a prefix notation that needs no brackets (one token per node, arities explicit):
+  b i f s u            bool int float str unknown
+  g:NAME               generic
+  t:N  <N types>       tuple
+  n:NAME:N <N types>   native
+  c:K:NAME:N <N types> compound, K = S | U
+  k:N <N types> <ret>  callable
+  x:G:N:R <N types> <ret>   func; G = `-` (not generic) or generic names joined by `,`; R = required count
+-/
+import XrayModel.Types
+open XrayModel
 namespace XrayDriver
+namespace TyEng
+
+def parseTyFuel : Nat → List String → Option (Ty × List String)
+  | 0, _ => none
+  | fuel + 1, tok :: rest =>
+    let parseN (n : Nat) (rest : List String) : Option (List Ty × List String) :=
+      (List.range n).foldlM (fun (acc : List Ty × List String) _ =>
+        match parseTyFuel fuel acc.2 with
+        | some (t, r) => some (acc.1 ++ [t], r)
+        | none => none) ([], rest)
+    match tok.splitOn ":" with
+    | ["b"] => some (.bool, rest)
+    | ["i"] => some (.int, rest)
+    | ["f"] => some (.float, rest)
+    | ["s"] => some (.str, rest)
+    | ["u"] => some (.unknown, rest)
+    | ["g", n] => some (.generic n, rest)
+    | ["t", n] => do
+      let (ts, r) ← parseN n.toNat! rest
+      pure (.tuple ts, r)
+    | ["n", name, n] => do
+      let (ts, r) ← parseN n.toNat! rest
+      pure (.native name ts, r)
+    | ["c", k, name, n] => do
+      let (ts, r) ← parseN n.toNat! rest
+      pure (.compound (if k == "U" then .union else .struct) name ts, r)
+    | ["k", n] => do
+      let (ts, r) ← parseN n.toNat! rest
+      let (ret, r) ← parseTyFuel fuel r
+      pure (.callable ts ret, r)
+    | ["x", g, n, q] => do
+      let (ts, r) ← parseN n.toNat! rest
+      let (ret, r) ← parseTyFuel fuel r
+      pure (.func (if g == "-" then none else some (g.splitOn ",")) ts q.toNat! ret, r)
+    | _ => none
+  | _, [] => none
+
+def parseTys (toks : List String) : Option (List Ty) :=
+  let rec go (fuel : Nat) (toks : List String) (acc : List Ty) : Option (List Ty) :=
+    match fuel, toks with
+    | _, [] => some acc.reverse
+    | 0, _ => none
+    | fuel + 1, toks =>
+      match parseTyFuel (toks.length + 1) toks with
+      | some (t, rest) => go fuel rest (t :: acc)
+      | none => none
+  go (toks.length + 1) toks []
+
+mutual
+partial def showTy : Ty → String
+  | .bool => "b" | .int => "i" | .float => "f" | .str => "s" | .unknown => "u"
+  | .generic n => "g:" ++ n
+  | .tuple ts => String.intercalate " " (("t:" ++ toString ts.length) :: ts.map showTy)
+  | .native name ts => String.intercalate " " (("n:" ++ name ++ ":" ++ toString ts.length) :: ts.map showTy)
+  | .compound k name ts =>
+    String.intercalate " " (("c:" ++ (match k with | .struct => "S" | .union => "U") ++ ":" ++ name ++ ":" ++ toString ts.length) :: ts.map showTy)
+  | .callable ps r => String.intercalate " " (("k:" ++ toString ps.length) :: (ps.map showTy ++ [showTy r]))
+  | .func g ps n r =>
+    String.intercalate " " (("x:" ++ (match g with | none => "-" | some gs => String.intercalate "," gs) ++ ":" ++ toString ps.length ++ ":" ++ toString n) :: (ps.map showTy ++ [showTy r]))
+end
+
+def insertSorted (e : String × String) : List (String × String) → List (String × String)
+  | [] => [e]
+  | x :: xs => if e.1 < x.1 then e :: x :: xs else x :: insertSorted e xs
+
+def showBnd (b : Bnd) : String :=
+  let es := (b.map fun (k, v) => (k, showTy v)).foldr insertSorted []
+  "{" ++ String.intercalate " | " (es.map fun (k, v) => k ++ "=" ++ v) ++ "}"
+
+def showOptBnd : Option Bnd → String
+  | none => "none"
+  | some b => "some " ++ showBnd b
+
+def posOf : String → Option Pos
+  | "let" => some .letDecl | "ret" => some .fnReturn | "default" => some .paramDefault
+  | "arg" => some .argument | "field" => some .field | "variant" => some .variant
+  | _ => none
+
+end TyEng
+open TyEng
 
 def tyEngine (f : String) (args : List String) : String :=
   match f, args with
+  | "bind", toks =>
+    match parseTys toks with
+    | some [r, s] => showOptBnd (bindIn r s)
+    | _ => "bad-op"
+  | "common", toks =>
+    match parseTys toks with
+    | some [a, b] => (match commonType a b with | none => "none" | some c => "some " ++ showTy c)
+    | _ => "bad-op"
+  | "commonall", toks =>
+    match parseTys toks with
+    | some ts => (match commonTypeAll ts with | none => "none" | some c => "some " ++ showTy c)
+    | _ => "bad-op"
+  | "eq", toks =>
+    match parseTys toks with
+    | some [a, b] => toString (Ty.beq a b)
+    | _ => "bad-op"
+  | "isunk", toks =>
+    match parseTys toks with
+    | some [a] => toString (isUnknown a)
+    | _ => "bad-op"
+  | "accept", p :: toks =>
+    match posOf p, parseTys toks with
+    | some pos, some [r, s] => toString (accepts pos r s)
+    | _, _ => "bad-op"
+  | "call", toks =>
+    match parseTys toks with
+    | some (callee :: as) =>
+      (match typeOfCall callee as with
+       | .ok t => "ok " ++ showTy t
+       | .error .invalidArgumentType => "err InvalidArgumentType"
+       | .error .callableBindingFailed => "err CallableBindingFailed"
+       | .error .notAFunction => "err NotAFunction")
+    | _ => "bad-op"
+  | "specbind", toks =>
+    -- first type must be a func: its spec is bound against the remaining types
+    match parseTys toks with
+    | some (.func g ps n r :: as) => showOptBnd (specBind { gens := g, ps := ps, nreq := n, ret := r } as)
+    | _ => "bad-op"
+  | "construct", toks =>
+    -- first type is a tuple holding the field types, the rest are the argument types
+    match parseTys toks with
+    | some (.tuple fields :: as) => showOptBnd (compoundBind fields as)
+    | _ => "bad-op"
   | _, _ => "bad-op"
 
 end XrayDriver
